@@ -219,4 +219,23 @@ fn edits(rep: &mut Report, base: &a2lfile::A2lFile, wbase: &str, input: &str, rn
     } else if !inserted.iter().any(|l| l.contains("verif_new_object")) || inserted.iter().any(|l| l.contains("/begin") && !l.contains("verif_new_object")) {
         rep.fail("edit-not-local", format!("{input} push"), format!("inserted lines are not exactly the new object: {inserted:?}"));
     }
+    // 3. the same on a model that already holds some dozens of objects created through the API (they all have uid 0 and
+    //    line 0: their order in the output rests on the order of the list alone)
+    let mut f = base.clone();
+    let nprev = 22 + rng.below(30);
+    for k in 0..nprev {
+        f.project.module[mi].measurement.push(Measurement::new(format!("verif_prev_{k:02}"), "".into(), DataType::Ubyte, "NO_COMPU_METHOD".into(), 1, 1.0, 0.0, 255.0));
+    }
+    let w0 = f.write_to_string();
+    f.project.module[mi].measurement.push(Measurement::new("verif_new_object".into(), "".into(), DataType::Ubyte, "NO_COMPU_METHOD".into(), 1, 1.0, 0.0, 255.0));
+    let w = f.write_to_string();
+    rep.case(&(input, "push-after-pushes", nprev), true);
+    rep.bump("edit:push-after-pushes");
+    let ((a0, a1), (b0, b1)) = diff_region(&w0, &w);
+    let inserted: Vec<&str> = w.split('\n').collect::<Vec<_>>()[b0 - 1..b1 - 1].to_vec();
+    if a0 < a1 {
+        rep.fail("edit-not-local", format!("{input} push-after-pushes"), format!("pushing one more MEASUREMENT behind {nprev} pushed ones changed lines {a0}..{} that belong to other objects", a1 - 1));
+    } else if !inserted.iter().any(|l| l.contains("verif_new_object")) || inserted.iter().any(|l| l.contains("/begin") && !l.contains("verif_new_object")) {
+        rep.fail("edit-not-local", format!("{input} push-after-pushes"), format!("inserted lines are not exactly the new object: {inserted:?}"));
+    }
 }
